@@ -97,7 +97,7 @@ def slow_ident2(theta, N, seed):
     import time
 
     th = np.asarray(theta, dtype=float)
-    time.sleep(0.05 if th[0] < 0.5 else 0.0)
+    time.sleep(0.2 if th[0] < 0.5 else 0.0)
     out = np.tile(np.array([th[0], th[-1] + 10.0]), (N, 1)) + np.arange(N)[:, None] * 1e-3
     return out
 
